@@ -1,6 +1,7 @@
 #ifndef CLS_HPP
 #define CLS_HPP
 #include <string>
+#include <cstdint>
 namespace ns {
 enum Color { RED, BLUE = 5 };
 class Shape {
@@ -46,5 +47,6 @@ template<typename T> T biggest();
 template<typename T, typename U> void store(T first, U second);
 int normalize(std::string &text);
 int normalize(const std::string &text);
+int64_t scale64(int64_t v, int k);
 }
 #endif
